@@ -195,3 +195,10 @@ def run(ctx):
     for h in ("extremely", "seldom"):
         for p in ("x<0.5", "x==0.5", "x>0.5"):
             ctx.require(f"piece:{h}:{p}")
+
+
+def passive(ctx, fl, probe):
+    """attach this property's always-on monitor to a foreign workload (the repository's test-suite, see vf/pytest_plugin.py)"""
+    mon = HedgeMonitor(ctx, fl)
+    mon.install(probe)
+    return mon.check_relations
